@@ -41,10 +41,14 @@ structure Params where
   /-- `GRPCServerMuxer.Accept` hands a knocked stream to its listener with a BLOCKING send (`acceptCh <- …`, no
   `default`/fallback): it waits until the listener's `Accept()` takes it, however late that is called -/
   handoffBlocks : Bool
+  /-- a knock parked on the accepting side (nobody has accepted its id yet) is dropped BEFORE its dialler stops waiting
+  for the ack (`Run` starts an expiry for every incoming knock, shorter than the dialler's wait), so a knock is only ever
+  answered while its dialler is still there to open the stream -/
+  knocksExpire : Bool
   deriving DecidableEq, Repr
 
 def Params.Good (P : Params) : Prop :=
-  P.registerFirst = true ∧ P.tokenCap = 1 ∧ P.sequential = true ∧ P.handoffBlocks = true
+  P.registerFirst = true ∧ P.tokenCap = 1 ∧ P.sequential = true ∧ P.handoffBlocks = true ∧ P.knocksExpire = true
 
 instance (P : Params) : Decidable P.Good := by unfold Params.Good; exact inferInstance
 
@@ -89,9 +93,11 @@ structure State where
   mainDead : Bool
   /-- results of Y's dial attempts: (id, handshake succeeded) -/
   results : List (Nat × Bool)
+  /-- a knock for this id is still parked on X although its dialler has given up waiting for the ack -/
+  stale : Nat → Bool
 
 def init (r : Role) : State :=
-  ⟨r, fun _ => false, fun _ => false, fun _ => .none, .idle, none, fun _ => false, 0, [], [], false, []⟩
+  ⟨r, fun _ => false, fun _ => false, fun _ => .none, .idle, none, fun _ => false, 0, [], [], false, [], fun _ => false⟩
 
 def updB (f : Nat → Bool) (i : Nat) (v : Bool) : Nat → Bool := fun j => if j = i then v else f j
 def updA (f : Nat → APc) (i : Nat) (v : APc) : Nat → APc := fun j => if j = i then v else f j
@@ -119,7 +125,29 @@ inductive Event
   | xAcceptUnparked
   /-- client role: the unblocked listener `id` takes the next stream -/
   | lAccept (id : Nat)
+  /-- Y's dial gives up: the knock is still parked on X (no knock loop for its id has taken it) when the 5 s wait for
+  the ack ends; `Dial` returns an error.  What becomes of the parked knock is the fact `knocksExpire`. -/
+  | dialGiveUp
+  /-- a knock loop started later takes a parked knock whose dialler has already given up, and answers it -/
+  | kRecvStale (id : Nat)
   deriving DecidableEq, Repr
+
+/-- the two events about knocks nobody waits for any more (kept apart from `step` so that its equation stays small) -/
+def stepStale (P : Params) (s : State) : Event → Option State
+  | .dialGiveUp =>
+    match s.hs with
+    | .parked id => some { s with hs := .idle, stale := if P.knocksExpire then s.stale else updB s.stale id true }
+    | _ => none
+  | .kRecvStale id =>
+    if s.stale id ∧ s.kStarted id ∧ s.hs = .idle then
+      match s.role with
+      | .server => if s.tok = none then some { s with tok := some id, stale := updB s.stale id false } else none
+      | .client =>
+        if s.reg id ∧ !s.waitTok id then
+          some { s with waitTok := updB s.waitTok id true, waitCount := s.waitCount + 1, stale := updB s.stale id false }
+        else none
+    else none
+  | _ => none
 
 def noMain (q : List Tag) : Bool := q.all (fun t => t != .main)
 
@@ -204,6 +232,8 @@ def step (P : Params) (s : State) : Event → Option State
         some { s with q := q', waitTok := updB s.waitTok id false, waitCount := s.waitCount - 1, delivered := s.delivered ++ [(t, .listener id)] }
       else none
     | _, _ => none
+  | .dialGiveUp => stepStale P s .dialGiveUp
+  | .kRecvStale id => stepStale P s (.kRecvStale id)
 
 def runFrom (P : Params) : State → List Event → Option State
   | s, [] => some s
